@@ -328,6 +328,66 @@ def h_tensor(ctx, N, d, m, full=False, point='float', scale=None):
                 ctx.eq(T[idx] / float(sc), ref / float(sc), 'T%s' % (list(idx),))
 
 
+def h_tensor_valued(ctx, N, d, m, out='vector', full=False):
+    """extract_tensor for vector- and matrix-valued programs: every output component gets the
+    d-th order partial derivatives of that component (trailing axes = the program's result shape)"""
+    algopy = symx.load_algopy()
+    UTPM = algopy.UTPM
+    import algopy.exact_interpolation as ei
+    oshape = (2,) if out == 'vector' else (3, 2)
+    M = int(np.prod(oshape))
+    mons, C = coeff_vars(ctx, M, N, m, box=True)
+    xi = [1, 2, 3, -1, 2][:N]
+
+    def f(x):
+        y = algopy.zeros(oshape, dtype=x)
+        for k, idx in enumerate(np.ndindex(*oshape)):
+            y[idx] = poly_eval(C[k], mons, x)
+        return y
+    y = f(UTPM.init_tensor(d, np.array(xi, dtype=float)))
+    try:
+        T = np.asarray(plain(np.asarray(UTPM.extract_tensor(N, y, as_full_matrix=full), dtype=object)), dtype=object)
+    except Exception as e:
+        ctx.fact(False, 'extract_tensor(as_full_matrix=%s) of a %s-valued program raised %s: %s' % (full, out, type(e).__name__, str(e)[:100]))
+        return
+    mi = ei.generate_multi_indices(N, d)
+
+    def taylor_coeff(alpha, k):
+        tot = 0
+        for cb, b in zip(C[k], mons):
+            if all(bb >= aa for bb, aa in zip(b, alpha)):
+                w = Fraction(1)
+                for bb, aa, xx in zip(b, alpha, xi):
+                    w *= math.comb(bb, aa) * Fraction(xx) ** (bb - aa)
+                tot = tot + cb * (w if ctx.mode == 'sym' else float(w))
+        return tot
+    tol = Fraction(1, 10**9) * len(mons)
+    want_shape = ((mi.shape[0],) if not full else (N,) * d) + oshape
+    ctx.fact(T.shape == want_shape, 'tensor shape %s == %s' % (T.shape, want_shape))
+    if T.shape != want_shape:
+        return
+    lead = [(i, tuple(int(a) for a in alpha), 1) for i, alpha in enumerate(mi)] if not full else []
+    if full:
+        for idx in itertools.product(range(N), repeat=d):
+            alpha = [0] * N
+            for i in idx:
+                alpha[i] += 1
+            fact = 1
+            for a in alpha:
+                fact *= math.factorial(a)
+            lead.append((idx, tuple(alpha), fact))
+    for (pos, alpha, fact) in lead:
+        for k, oidx in enumerate(np.ndindex(*oshape)):
+            ref = taylor_coeff(alpha, k) * fact
+            got = T[((pos,) if not full else tuple(pos)) + oidx]
+            if ctx.mode == 'sym':
+                r = S.lift(got) - S.lift(ref)
+                ctx.holds(r <= tol * fact, 'T[%s][%s] - exact <= tol' % (pos, list(oidx)))
+                ctx.holds(r >= -tol * fact, 'T[%s][%s] - exact >= -tol' % (pos, list(oidx)))
+            else:
+                ctx.eq(got, ref, 'T[%s][%s]' % (pos, list(oidx)))
+
+
 def h_tensor_sequence(ctx, pairs):
     """several tensor extractions in one process, in particular (N,d) pairs with the same
     number of distinct partial derivatives"""
@@ -422,6 +482,10 @@ def units(tier, seed):
     for (N, d) in ([(1, 2), (2, 2), (2, 3), (3, 2), (2, 4)] if tier == 'quick' else
                    [(1, 2), (1, 3), (2, 2), (2, 3), (3, 2), (2, 4), (3, 3), (4, 2), (2, 5), (3, 4), (4, 3), (5, 2), (2, 6), (1, 6)]):
         add('tensor/N%d,d%d' % (N, d), 'h_tensor', o={'validate': False}, N=N, d=d, m=d + 1)
+    for outk in ('vector', 'matrix'):
+        for full in (False, True):
+            add('tensor of a %s-valued program/N2,d2,%s' % (outk, 'full' if full else 'compact'), 'h_tensor_valued', N=2, d=2, m=3, out=outk, full=full)
+    add('tensor of a vector-valued program/N3,d3,compact', 'h_tensor_valued', N=3, d=3, m=3, out='vector', full=False)
     for pt in ('int', 'list', 'int32'):
         add('tensor/N2,d3/seed point given as %s' % pt, 'h_tensor', N=2, d=3, m=4, point=pt)
         add('full derivative tensor/N3,d2/seed point given as %s' % pt, 'h_tensor', N=3, d=2, m=3, full=True, point=pt)
